@@ -1417,3 +1417,91 @@ func (p *Program) pfControlledBy(fs []Fact, objOK, ownerOK func(ssa.Value) bool)
 	}
 	return unknownTri
 }
+
+// ---------------------------------------------------------------------------------------------
+// Variables captured by closures
+
+// pfCapturedVar: ptr is the address of a variable as a closure sees it (a FreeVar, possibly handed
+// down through several closure levels) or the variable itself (an Alloc); returns the Alloc in the
+// function that declares the variable.
+func pfCapturedVar(ptr ssa.Value) *ssa.Alloc {
+	for d := 0; d < 6 && ptr != nil; d++ {
+		switch x := ptr.(type) {
+		case *ssa.Alloc:
+			return x
+		case *ssa.FreeVar:
+			ptr = freeVarBinding(x.Parent(), x)
+		default:
+			return nil
+		}
+	}
+	return nil
+}
+
+// pfClosureMayWrite: the closure (or a closure it hands the variable on to) may assign to the
+// captured variable bound to ptr, or lets its address escape.
+func pfClosureMayWrite(mc *ssa.MakeClosure, ptr ssa.Value, d int) bool {
+	f, ok := mc.Fn.(*ssa.Function)
+	if !ok || d > 5 {
+		return true
+	}
+	for i, b := range mc.Bindings {
+		if b != ptr || i >= len(f.FreeVars) {
+			continue
+		}
+		fv := f.FreeVars[i]
+		for _, r := range referrersOf(fv) {
+			switch x := r.(type) {
+			case *ssa.UnOp, *ssa.DebugRef:
+			case *ssa.MakeClosure:
+				if pfClosureMayWrite(x, fv, d+1) {
+					return true
+				}
+			default:
+				return true
+			}
+		}
+	}
+	return false
+}
+
+// pfCapturedValues: ptr addresses a variable that closures capture (seen from the declaring function
+// or from inside a closure); returns the values assigned to it anywhere. ok=false when ptr is not
+// such a variable or it may be written in a way that is not modelled.
+func (p *Program) pfCapturedValues(ptr ssa.Value) ([]ssa.Value, bool) {
+	a := pfCapturedVar(ptr)
+	if a == nil {
+		return nil, false
+	}
+	captured := false
+	var out []ssa.Value
+	for _, r := range referrersOf(a) {
+		switch x := r.(type) {
+		case *ssa.Store:
+			if x.Addr != ssa.Value(a) {
+				return nil, false
+			}
+			out = append(out, x.Val)
+		case *ssa.UnOp, *ssa.DebugRef:
+		case *ssa.MakeClosure:
+			captured = true
+			if pfClosureMayWrite(x, a, 0) {
+				return nil, false
+			}
+		case *ssa.FieldAddr, *ssa.IndexAddr:
+			if derivedAddrWritten(x.(ssa.Value)) {
+				return nil, false
+			}
+		case ssa.CallInstruction:
+			if callMayWriteThroughArg(x.Common(), a) {
+				return nil, false
+			}
+		default:
+			return nil, false
+		}
+	}
+	if _, isFV := ptr.(*ssa.FreeVar); !isFV && !captured {
+		return nil, false // an ordinary local: possibleValues knows better (reaching stores)
+	}
+	return out, len(out) > 0
+}
